@@ -377,7 +377,7 @@ def mon_c02(ix: Index):
                 continue
             obs = ("exc", e["cls"], e.get("msg"), e.get("etype"))
         else:
-            obs = ("ret", e.get("val"))
+            obs = ("ret", e.get("val"), e.get("ko") or "")
         key = (e["path"], e.get("phase"))
         n += 1
         if key not in first:
@@ -385,6 +385,8 @@ def mon_c02(ix: Index):
         elif first[key][0] != obs:
             f = first[key]
             what = "value" if obs[0] == f[0][0] == "ret" else ("exception" if obs[0] == f[0][0] else "kind")
+            if what == "value" and obs[1] == f[0][1]:
+                what = "mapping-iteration-order"  # equal by ==, but a loop over the delivered mapping runs in another order
             out.append(V("C02", "C02/replay-differs/%s/%s" % (e.get("opkind"), what),
                          "%s delivered %s in invocation %d but %s in invocation %d" % (e["path"], str(f[0])[:80], f[1], str(obs)[:80], e["inv"]), e["i"]))
     ix.r.setdefault("stats", {})["c02_deliveries"] = n
